@@ -207,6 +207,13 @@ class ChaosModel(Model):
         return self.digest()
 
 
+class KwChaosModel(ChaosModel):
+    """The same model behind a constructor that takes its seed as a keyword-only argument (a common signature style)."""
+
+    def __init__(self, cfg, *, seed=None):
+        super().__init__(seed, cfg)
+
+
 def gen_cfg(rng, tier="quick"):
     world = rng.choice(["plain", "plain", "grid", "grid_wrap", "line", "space", "space_wrap"])
     names = [n for n in SYSTEMS if rng.random() < 0.7] or ["transfer", "shuffle"]
